@@ -86,9 +86,9 @@ pub fn run_sessions(cfg: &ScenCfg, out: &mut RunOut) {
         let kind = if !server_up {
             0
         } else if max_sessions >= 10 {
-            weighted(&[16, 2, 3, 1, 1, 0, 2])
+            weighted(&[16, 2, 3, 1, 1, 0, 2, 2])
         } else {
-            weighted(&[8, 3, 4, 2, 1, 1])
+            weighted(&[8, 3, 4, 2, 1, 1, 0, 2])
         };
         hash_bytes(&mut wl, &[kind as u8]);
         match kind {
@@ -195,6 +195,34 @@ pub fn run_sessions(cfg: &ScenCfg, out: &mut RunOut) {
                         }
                     }
                 }
+            }
+            7 => {
+                // a burst of connections lands in the accept queue before the server runs again
+                let k = 2 + choose(3) as usize;
+                let mut newc = Vec::new();
+                for _ in 0..k {
+                    let from: SocketAddr = format!("10.0.2.{}:{}", 1 + next_id % 200, 3000 + next_id).parse().unwrap();
+                    match net::connect_from(addr, from) {
+                        Some(p) => {
+                            newc.push((next_id, p));
+                            next_id += 1;
+                        }
+                        None => {
+                            out.violate("C15", "connect_refused_while_serving", "burst connection refused although the server is running".into());
+                            return;
+                        }
+                    }
+                }
+                for (id, p) in newc {
+                    if live.len() >= limit {
+                        live.remove(0);
+                        out.probe("eviction");
+                    }
+                    live.push(id);
+                    conns.push(Conn { peer: p, id });
+                }
+                out.probe("burst_connect");
+                trace.push(format!("{} connections at once", k));
             }
             6 => {
                 // many clients vanish in the same instant (their close notifications race in one batch)
